@@ -1,5 +1,7 @@
 package spec
 
+import "verif/harness/internal/gen"
+
 // The harness's own transcription of the documented helper policies and of
 // UGCPolicy (from the comments in helpers.go / policies.go). This is the
 // independent vocabulary table C04 judges against; it is deliberately not
@@ -131,4 +133,32 @@ func UGCOps() []Op {
 		attrs(ReNumber, "els", []string{"progress"}, "value", "max"),
 		{K: KImages},
 	}
+}
+
+// Sample values for the documented helper patterns, so that the generators can write
+// attribute values these rules accept (and reject): conforming documents over the shipped
+// policies would otherwise only ever use unpatterned attributes.
+func init() {
+	gen.RegisterPool(ReCellAlign, []string{"center", "LEFT", "char", "justify"}, []string{"middle", "", "left;"})
+	gen.RegisterPool(ReCellVerticalAlign, []string{"top", "MIDDLE", "baseline"}, []string{"left", ""})
+	gen.RegisterPool(ReDirection, []string{"rtl", "LTR"}, []string{"up", "ltr "})
+	gen.RegisterPool(ReImageAlign, []string{"left", "absmiddle", "TEXTTOP", "bottom"}, []string{"center", ""})
+	gen.RegisterPool(ReInteger, []string{"0", "42", "007"}, []string{"-1", "1.5", "", "4x"})
+	gen.RegisterPool(ReISO8601, []string{"1997", "1997-07", "1997-07-16", "1997-07-16T19:20+01:00", "1997-07-16T19:20:30.45+01:00", "2024-02-29 23:59:59Z"}, []string{"97", "1997-7-16", "1997-07-16T19:20:30<45", "yesterday"})
+	gen.RegisterPool(ReListType, []string{"circle", "disc", "a", "I", "1"}, []string{"2", "roman", ""})
+	gen.RegisterPool(ReNumber, []string{"0", "1.5", "-1", "+2e10", ".5"}, []string{"1,5", "", "e", "1px"})
+	gen.RegisterPool(ReNumberOrPercent, []string{"100", "100%", "0"}, []string{"-1", "1.5%", "%", "10px"})
+	gen.RegisterPool(ReParagraph, []string{"Hello, world!", "it's [ok] (really)", "", "a/b\\c_d-e."}, []string{"a<b", `say "x"`, "a=b", "a&b", "a;b"})
+	gen.RegisterPool(ReLang, []string{"en", "de-DE", "zh-Hant"}, []string{"e", "1", ""})
+	gen.RegisterPool(ReID, []string{"a1", "x:y", "sec-2.1_b"}, []string{"", "é", " "})
+	gen.RegisterPool(ReOpen, []string{"", "open", "OPEN"}, []string{"yes", "opened"})
+	gen.RegisterPool(ReMapName, []string{"map1", "m_a-p"}, []string{"", "a b", "#m"})
+	gen.RegisterPool(ReCoords, []string{"1,2", "0,0,10,10", "5,5,3"}, []string{"1", "1,", "a,b", "1, 2"})
+	gen.RegisterPool(ReShape, []string{"rect", "CIRCLE", "poly", "default"}, []string{"square", ""})
+	gen.RegisterPool(ReUsemap, []string{"#map1", "#M_a-p"}, []string{"map1", "#", "#a b"})
+	gen.RegisterPool(ReScope, []string{"row", "col", "rowgroup", "COLGROUP"}, []string{"", "x", "ro"})
+	gen.RegisterPool(ReNowrap, []string{"", "nowrap"}, nil)
+	gen.RegisterPool(reEmailColor, []string{"#fff", "#A1B2C3", "red", "RebeccaPurple"}, []string{"#ggg", "", "rgb(1,2,3)", "reddish"})
+	gen.RegisterPool(reEmailButtonType, []string{"submit", "button", "re-set"}, []string{"a", "1submit", ""})
+	gen.RegisterPool(reEmailStyleType, []string{"text/css", "TEXT/CSS"}, []string{"text/javascript", ""})
 }
